@@ -49,3 +49,25 @@ def overlap(a, b):
         return 1
     return 0
 
+
+
+def last_big(xs):
+    for x in xs:
+        if x > 3:
+            hit = x
+    return hit
+
+
+def last_seen(xs):
+    for x in xs:
+        cur = x
+    return cur
+
+
+def pick(flag, perm):
+    if flag is not False:
+        return 1
+    if perm:
+        return 2
+    return 3
+
